@@ -276,7 +276,7 @@ def run(ctx):
       rows = int(rng.integers(3, 9))
       pats[str(size)].append(rng.integers(1, 9, size=(rows, size)).tolist())
   rs = []
-  n_tr = 3 if ctx.quick else 8
+  n_tr = 3 if ctx.quick else 16
   per = 14 if ctx.quick else 60
   for name in gen.ALL:
     for k in range(n_tr):
